@@ -171,7 +171,7 @@ def run(ctx):
     tlc.sany(wd + "/SseWire.tla")
     full = frozenset({"LF", "CR", "OS", "CO", "SP", "CH"})
     K1 = dict(MaxData=3 if ctx.tier == "quick" else 4, DataAlphabet=full, NameAlphabet=frozenset({"CH", "CO"}) if ctx.tier == "quick" else frozenset({"CH", "CO", "SP"}), Splitter="wire", MaxEvents=1, MaxPings=1, Retries=frozenset({0, 1, 2}))
-    K2 = dict(MaxData=1 if ctx.tier == "quick" else 2, DataAlphabet=frozenset({"LF", "CH", "OS"}), NameAlphabet=frozenset({"CH"}), Splitter="wire", MaxEvents=2 if ctx.tier == "quick" else 3, MaxPings=1,
+    K2 = dict(MaxData=1, DataAlphabet=frozenset({"LF", "CH", "OS"}), NameAlphabet=frozenset({"CH"}), Splitter="wire", MaxEvents=2 if ctx.tier == "quick" else 3, MaxPings=1,
               Retries=frozenset({0, 2}))
     ctx.bounds = {"single_events": {k: (sorted(v) if isinstance(v, frozenset) else v) for k, v in K1.items()},
                   "sequences": {k: (sorted(v) if isinstance(v, frozenset) else v) for k, v in K2.items()}}
